@@ -20,7 +20,7 @@ def generate(ctx):
     rng = random.Random(ctx['seed'] * 7919 + 6)
     quick = ctx['tier'] == 'quick'
     cases = coregen.directed_link_cases() + coregen.directed_key_cases()
-    n = 400 if quick else 6000
+    n = 400 if quick else 1500
     for i in range(n):
         prof = 'edit' if i % 4 else 'own'
         nops = 40 if quick else rng.choice([20, 40, 80, 200])
